@@ -40,7 +40,7 @@ theorem N2_DTAU_DF__C_TAU_JAUMANN (hc : c * c = 2) (h2 : (2:K) ≠ 0)
   generalize_ne hd0 => e0 he0
   generalize_ne hd2 => e2 he2
   (try (repeat' apply And.intro))
-  all_goals (first | rfl | (field_simp <;> (try simp only [← he0, ← he2]) <;> c23_field hc))
+  all_goals (first | rfl | (field_simp <;> (try simp only [← he0, ← he2]) <;> c23_fieldc hc))
 
 /-- `DSIG_DF ← DSIG_DDF` (2D): along every variation `δF = L F` the converted operator, applied to the
 rate of its kinematic variable, gives the rate of the Cauchy stress that reproduces the same Lie derivative of
@@ -61,7 +61,7 @@ theorem N2_DSIG_DF__DSIG_DDF (hc : c * c = 2) (h2 : (2:K) ≠ 0)
     c23_unfold
     generalize_ne hd0 => e0 he0
     (try (repeat' apply And.intro))
-    all_goals (first | rfl | (field_simp <;> (try simp only [← he0]) <;> c23_field hc))
+    all_goals (first | rfl | (field_simp <;> (try simp only [← he0]) <;> c23_fieldc hc))
   rw [key]
 
 /-- `DPK1_DF ← DSIG_DF` (2D): along every variation `δF = L F` the converted operator, applied to the
@@ -72,7 +72,7 @@ theorem N2_DPK1_DF__DSIG_DF (hc : c * c = 2) (h2 : (2:K) ≠ 0)
     M3.tens3 (lamP (plane f0 f1 f2 f3 f4) (M3.ofMandel c [s 0, s 1, s 2, s 3]) (plane l0 l1 l2 l3 l4) (M3.ofTens (act (Gen.N2_DPK1_DF__DSIG_DF_r c c3 fn D (tensv F0) (tensv (plane f0 f1 f2 f3 f4)) s) (M3.tens2 ((plane l0 l1 l2 l3 l4) * (plane f0 f1 f2 f3 f4))))))
       = M3.tens3 (lamSig (plane f0 f1 f2 f3 f4) (M3.ofMandel c [s 0, s 1, s 2, s 3]) (plane l0 l1 l2 l3 l4) (M3.ofMandel c (act (rowsOf D i4 i5) (M3.tens2 ((plane l0 l1 l2 l3 l4) * (plane f0 f1 f2 f3 f4)))))) := by
   have hc0 : c ≠ 0 := c_ne_zero hc h2
-  c23_rat0 hc
+  c23_rat0c hc
 
 /-- `DTAU_DDF ← DTAU_DF` (2D): along every variation `δF = L F` the converted operator, applied to the
 rate of its kinematic variable, gives the rate of the Kirchhoff stress that reproduces the same Lie derivative of
@@ -84,7 +84,7 @@ theorem N2_DTAU_DDF__DTAU_DF (hc : c * c = 2) (h2 : (2:K) ≠ 0)
   have key : (act (Gen.N2_DTAU_DDF__DTAU_DF_r c c3 fn D (tensv (plane g0 g1 g2 g3 g4)) (tensv ((plane d0 d1 d2 d3 d4) * (plane g0 g1 g2 g3 g4))) s) (M3.tens2 ((plane l0 l1 l2 l3 l4) * (plane d0 d1 d2 d3 d4))))
       = (act (rowsOf D i4 i5) (M3.tens2 ((plane l0 l1 l2 l3 l4) * ((plane d0 d1 d2 d3 d4) * (plane g0 g1 g2 g3 g4))))) := by
     have hc0 : c ≠ 0 := c_ne_zero hc h2
-    c23_rat0 hc
+    c23_rat0c hc
   rw [key]
 
 /-- `C_TAU_JAUMANN ← ABAQUS` (2D): along every variation `δF = L F` the converted operator, applied to the
@@ -95,7 +95,7 @@ theorem N2_C_TAU_JAUMANN__ABAQUS (hc : c * c = 2) (h2 : (2:K) ≠ 0)
     upper (lamJ (plane f0 f1 f2 f3 f4) (M3.ofMandel c [s 0, s 1, s 2, s 3]) (plane l0 l1 l2 l3 l4) (M3.ofMandel c (act (Gen.N2_C_TAU_JAUMANN__ABAQUS_r c c3 fn D (tensv F0) (tensv (plane f0 f1 f2 f3 f4)) s) (M3.mandel2 c (symm (plane l0 l1 l2 l3 l4))))))
       = upper (lamAb (plane f0 f1 f2 f3 f4) (M3.ofMandel c [s 0, s 1, s 2, s 3]) (plane l0 l1 l2 l3 l4) (M3.ofMandel c (act (rowsOf D i4 i4) (M3.mandel2 c (symm (plane l0 l1 l2 l3 l4)))))) := by
   have hc0 : c ≠ 0 := c_ne_zero hc h2
-  c23_rat0 hc
+  c23_rat0c hc
 
 /-- `DS_DEGL ← DS_DC` (2D): along every variation `δF = L F` the converted operator, applied to the
 rate of its kinematic variable, gives the rate of the second Piola–Kirchhoff stress that reproduces the same Lie derivative of
@@ -107,7 +107,7 @@ theorem N2_DS_DEGL__DS_DC (hc : c * c = 2) (h2 : (2:K) ≠ 0)
   have key : (act (Gen.N2_DS_DEGL__DS_DC_r c c3 fn D (tensv F0) (tensv (plane f0 f1 f2 f3 f4)) s) (M3.mandel2 c (dE (plane f0 f1 f2 f3 f4) (plane l0 l1 l2 l3 l4))))
       = (act (rowsOf D i4 i4) (M3.mandel2 c (dC (plane f0 f1 f2 f3 f4) (plane l0 l1 l2 l3 l4)))) := by
     have hc0 : c ≠ 0 := c_ne_zero hc h2
-    c23_rat0 hc
+    c23_rat0c hc
   rw [key]
 
 end TfelVerif.C23.PropsN2b
